@@ -6,7 +6,7 @@ Traces == JsonDeserialize(IOEnv.TRACE_FILE)
 N == Len(Traces)
 T == Traces[tid]
 E == T[l]
-Avail == [impls |-> Range(T[1].impls), tdes |-> T[1].tdes]
+Avail == [impls |-> Range(T[1].impls), tdes |-> T[1].tdes, compSend |-> Range(T[1].compSend), compRecv |-> Range(T[1].compRecv)]
 TraceInit == tid \in 1..N /\ l = 2
 TraceNext == /\ l <= Len(T) /\ E.ev = "CASE" /\ l' = l + 1 /\ UNCHANGED tid
              /\ CaseOk(E, Avail)
